@@ -278,7 +278,14 @@ def decide_table_failure(spec, known, report, rec, root):
     payload = {"property": pid, "obligation": rec["name"], "kind": "kw", "root": root, "note": rec.get("note"),
                "solver": {"status": "failed", "backend": "tables"}}
     f = None
-    if rec.get("search"):
+    if rec.get("fmt_search"):
+        try:
+            sr = driver.rt_call("pyvc.rt_fmt", {"cmd": "search", "root": root, "limit": 1}, root, timeout=3000)
+            f = (sr.get("failures") or [None])[0]
+            payload["kind"] = "fmt"
+        except Exception:      # noqa
+            f = None
+    elif rec.get("search"):
         try:
             sr = driver.rt_call("pyvc.rt_kw", dict(rec["search"], cmd="search", root=root, limit=1), root)
             f = (sr.get("failures") or [None])[0]
